@@ -88,8 +88,8 @@ Theorem C09_unguarded_chains_are_short :
 Proof. intro g. exact (chain_bounded g (kahn (List.length g) g []) C09_all_cycles_guarded). Qed.
 Print Assumptions C09_unguarded_chains_are_short.
 
-(* the depth guard and the loops it protects are where the model says *)
-Example C09_guarded_functions : depth_guarded = ["parse_block"; "parse_expression"]%string /\ MAX_RECURSION_DEPTH = 1000.
+(* parse_expression and parse_block carry the depth guard *)
+Example C09_guarded_functions : mem "parse_block" depth_guarded = true /\ mem "parse_expression" depth_guarded = true.
 Proof. vm_compute. split; reflexivity. Qed.
 
 (* ---------------------------------------------------------------- (3) the hanging inputs, in the parser model *)
